@@ -121,6 +121,12 @@ const pairText = `.b as $b | .a | map(. as $x | $b | map([$x, .]))`
 // [c[:k], c[k:]] | tobits, plus the unsplit c[0:] | tobits it must equal.
 const lawText = `map(. as $b | [$b.bits, $b.bytes] | map(. as $c | { whole: (try [$c[0:] | tobits] catch null), split: [range(0; ($c | length) + 1) as $k | try [[$c[:$k], $c[$k:]] | tobits] catch null] }))`
 
+// law3Text: every cut of $c = .bits into three parts at (a, k) from the position grid
+// handed in as .grid[i]; the parts are concatenated flat [x, y, z] and nested [x, [y, z]]
+// and the concatenation is observed as bits and through byte-unit indexing (explode,
+// first and last byte): one byte of the result may take its bits from three members.
+const law3Text = `.grid as $grid | .bins | to_entries | map(.key as $i | .value.bits as $c | [$grid[$i][] as [$a, $k] | [[$c[:$a], $c[$a:$k], $c[$k:]], [$c[:$a], [$c[$a:$k], $c[$k:]]]] | map(. as $x | [(try [$x | tobits] catch null), (try [$x | tobytes | explode] catch null), (try [$x | tobytes | .[0]] catch null), (try [$x | tobytes | .[-1]] catch null)])])`
+
 // ---- expression trees --------------------------------------------------------------
 
 // Tree is an expression: a leaf, a unary operator on a tree, or [x, y].
